@@ -56,3 +56,10 @@ CASES += [
         ("quantarhei/qm/liouvillespace/redfieldtensor.py",
          "        Ld = numpy.zeros((Nb, Na, Na), dtype=numpy.complex128)\n        for ms in range(Nb):\n            Ld[ms, :, :] += numpy.conj(numpy.transpose(Lm[ms,:,:]))        \n", "", 1)]},
 ]
+
+CASES += [
+    {"name": "serial path of the range helper does not record its block (the repaired defect)", "kind": "mutant", "rule": "C20-F", "edits": [
+        ("quantarhei/core/parallel.py", "        config.range = [start, stop]\n        \n        return range(start, stop)", "        return range(start, stop)", 1)]},
+    {"name": "serial block recorded as a tuple", "kind": "twin", "edits": [
+        ("quantarhei/core/parallel.py", "        config.range = [start, stop]\n", "        config.range = (start, stop)\n", 1)]},
+]
